@@ -67,6 +67,9 @@ def gen_dir(ch, depth, counter, top=False):
         counter[0] += 1
         idx = {"title": f"T{counter[0]} index" if (top or ch.bool(8, 9)) else None, "n": counter[0], "ordered": [],
                "copy_subdir": list(d["copydirs"]), "missing": None}
+        if idx["copy_subdir"] and ch.bool(1, 3):
+            # an entry naming a directory that does not exist: reported, the others are still copied
+            idx["copy_subdir"].insert(ch.int(len(idx["copy_subdir"]) + 1), "nowhere")
         entries = sorted(list(d["files"]) + list(d["dirs"]))
         if entries and ch.bool(1, 2):
             k = ch.count(1, len(entries))
